@@ -988,13 +988,15 @@ Examples:
                 fixed = re.sub(name, 'x[' + str(i) + ']', fixed)
             constraint = fixed.strip()
 
-            # Replace 'spread', 'mean', and 'variance' (uses numpy, not mystic)
+            # Replace 'spread', 'mean', 'variance', 'product' (uses numpy, not mystic)
             if constraint.find('spread(') != -1:
                 constraint = constraint.replace('spread(', 'ptp(')
             if constraint.find('mean(') != -1:
                 constraint = constraint.replace('mean(', 'average(')
             if constraint.find('variance(') != -1:
                 constraint = constraint.replace('variance(', 'var(')
+            if constraint.find('product(') != -1:
+                constraint = constraint.replace('product(', 'prod(')
 
             # Sorting into equality and inequality constraints, and making all
             # inequality constraints in the form expression <= 0. and all 
@@ -1318,6 +1320,7 @@ Examples:
     code = """from math import *; from numpy import *;"""
     code += """from builtins import *;""" # don't overload builtins
     code += """from numpy import mean as average;""" # use np.mean not average
+    code += """from numpy import prod as product;""" # use np.prod not product
     code += """from mystic.math.measures import spread, variance, mean;"""
     code += """from mystic.math.measures import impose_spread, impose_mean;"""
     code += """from mystic.math.measures import impose_sum, impose_product;"""
